@@ -58,10 +58,8 @@ func (c *Ctx) mustQueue(fn *ssa.Function, bind map[ssa.Value]*ssa.Const, depth i
 	queues := func(i ssa.Instruction) bool {
 		switch x := i.(type) {
 		case *ssa.Store:
-			if fa, ok := x.Addr.(*ssa.FieldAddr); ok {
-				if f := fieldName(fa); f == "sessionStateEvents" || f == "cookieStateEvents" {
-					return true
-				}
+			if queueAddr(x.Addr, 0) {
+				return true
 			}
 		case ssa.CallInstruction:
 			if g := StaticCallee(x); g != nil && c.inRepo(g) && g != fn {
@@ -953,4 +951,29 @@ func blocksOf(f *ssa.Function) []*ssa.BasicBlock {
 		return nil
 	}
 	return f.Blocks
+}
+
+// queueAddr: the address of one of the writer's event queues — the field
+// itself, or a pointer chosen among them (`events = &csrw.sessionStateEvents`
+// in one arm of a switch, `&csrw.cookieStateEvents` in the other).
+func queueAddr(v ssa.Value, d int) bool {
+	switch x := v.(type) {
+	case *ssa.FieldAddr:
+		f := fieldName(x)
+		return f == "sessionStateEvents" || f == "cookieStateEvents"
+	case *ssa.Phi:
+		if d > 3 || len(x.Edges) == 0 {
+			return false
+		}
+		for _, e := range x.Edges {
+			if IsNilConst(e) {
+				continue // the arm that returns before anything is stored
+			}
+			if !queueAddr(e, d+1) {
+				return false
+			}
+		}
+		return true
+	}
+	return false
 }
